@@ -44,7 +44,8 @@ func pick[T any](r *Rng, xs []T) T { return xs[r.Intn(len(xs))] }
 
 var smallIDs = []uint64{0, 1, 2, 3}
 var boundaryU64 = []uint64{0, 1, 2, 3, 127, 128, 255, 256, 65535, 65536, 1<<31 - 1, 1 << 31, 1<<32 - 1, 1 << 32, 1<<63 - 1, 1 << 63, 1<<64 - 1}
-var smallStrs = []string{"", "a", "ab", "abc", "b", "litefs-cloud", "wg", "billing", "deletion", "zz"}
+// (among them the labels Access.Validate uses for typed resources: a FEATURE may carry such a name)
+var smallStrs = []string{"", "a", "ab", "abc", "b", "litefs-cloud", "wg", "billing", "deletion", "zz", "app", "machine", "volume", "storage-object", "command-execution", "membership", "authentication"}
 var maskPool = []resset.Action{0, 1, 2, 3, 4, 8, 16, 31, 0xffff, 32, 33, 0x8000, 5, 30}
 
 func (r *Rng) id() uint64 {
